@@ -225,6 +225,10 @@ Proof.
   rewrite eat_whitespace_gap; [reflexivity|exact Hg|reflexivity].
 Qed.
 
+Lemma required_lbrace g r ln : all_space g ->
+  required [P_LBRACE] false (g ++ ltok_text LL ++ r) ln = Ok ((P_LBRACE, ltok_text LL), (r, (ln + nl_count g)%Z)).
+Proof. intros Hg. unfold required. fold (optional [P_LBRACE] (g ++ ltok_text LL ++ r) ln). rewrite (optional_lbrace g r ln Hg). reflexivity. Qed.
+
 (* ---- the literal constructors on printed tokens *)
 Lemma strip_hash_l_id s : (match s with c :: _ => (c =? c_hash) = false | [] => True end) -> strip_hash_l s = s.
 Proof. destruct s as [|c s]; cbn; [reflexivity|]. intros ->. reflexivity. Qed.
